@@ -456,9 +456,35 @@ pub fn check(tier: Tier) -> i32 {
             }
         }
     };
+    // vertices stacked on the vertex before them (same X / Y, another Z / M: a vertical segment, a repeated
+    // position with a new measure), the stacked vertex holding the extreme of Z resp. M; every vertex of every part
+    let stacked_types: Vec<Ty> = ALL13.iter().copied().filter(|t| t.family() != Family::Point && (t.has_z() || t.carries_m())).collect();
+    let run_stacked = |ty: Ty, ctx: &mut Ctx, tick: &dyn Fn()| {
+        for base in c05_structures(ty) {
+            for pi in 0..base.parts.len() {
+                for vi in 1..base.parts[pi].pts.len() {
+                    for d in 2..4 {
+                        if !ty.dims()[d] {
+                            continue;
+                        }
+                        for val in [9.0e6, -9.0e6] {
+                            let mut s = base.clone();
+                            let prev = s.parts[pi].pts[vi - 1];
+                            s.parts[pi].pts[vi][0] = prev[0];
+                            s.parts[pi].pts[vi][1] = prev[1];
+                            s.parts[pi].pts[vi][d] = val;
+                            run_case(&Case { ty, shapes: vec![s.clone()], ndev: 1, fin_mask: 0 }, ctx);
+                            run_case(&Case { ty, shapes: vec![base.clone(), s], ndev: 1, fin_mask: 0 }, ctx);
+                        }
+                    }
+                }
+            }
+            tick();
+        }
+    };
     let n_struct = units.len();
     let n_count_blocks = (count_units.len() + 15) / 16;
-    let total_units = n_struct + n_count_blocks + big_units.len();
+    let total_units = n_struct + n_count_blocks + big_units.len() + stacked_types.len();
     let run_count_case = |ty: Ty, n: usize, ctx: &mut Ctx| {
         let red = reduced_set(ty);
         let mut shapes: Vec<MShape> = (0..n).map(|i| red[(i * 3 + i / 5) % red.len()].clone()).collect();
@@ -480,9 +506,11 @@ pub fn check(tier: Tier) -> i32 {
                 run_count_case(*ty, *n, ctx);
                 tick();
             }
-        } else {
+        } else if b < n_struct + n_count_blocks + big_units.len() {
             let (ty, n) = big_units[b - n_struct - n_count_blocks];
             run_big(ty, n, ctx, tick);
+        } else {
+            run_stacked(stacked_types[b - n_struct - n_count_blocks - big_units.len()], ctx, tick);
         }
     });
     // the self-test runs the library too: on a tree that panics there it counts as failed (a verdict, if there is one,
@@ -494,7 +522,7 @@ pub fn check(tier: Tier) -> i32 {
             tier,
             level: "model_checking",
             engine: "E2 structure x extreme-value placement enumerator; oracle = independent numeric min/max fold + RefCodec for stored boxes and header bytes",
-            rule: "13 types x structures (1-3 parts, 1-5 vertices) and sequences of 2-3 shapes x {no deviation; one slot x every value of F_xy; a whole dimension set to one value of F_xy; every ordered pair of distinct slots of one dimension x low x high values; every pair with values one ulp apart; all vertices identical; sequences of 2-3 shapes with every finalize placement and the extremes in each shape in turn}; plus files of EVERY record count 4..=bound with the minimum in the last-but-one and the maximum in the last record; plus shapes [3, n, 2 points] (multipoint: n) for n in {1025, 4097, 9999, 10000, 10001, 16385} (thorough up to 65537, 10 types) with the extremes of every dimension at the first / middle / last vertex of each part in turn; non-trivial = >=1 deviation or >=2 shapes",
+            rule: "13 types x structures (1-3 parts, 1-5 vertices) and sequences of 2-3 shapes x {no deviation; one slot x every value of F_xy; a whole dimension set to one value of F_xy; every ordered pair of distinct slots of one dimension x low x high values; every pair with values one ulp apart; all vertices identical; sequences of 2-3 shapes with every finalize placement and the extremes in each shape in turn}; plus files of EVERY record count 4..=bound with the minimum in the last-but-one and the maximum in the last record; plus shapes [3, n, 2 points] (multipoint: n) for n in {1025, 4097, 9999, 10000, 10001, 16385} (thorough up to 65537, 10 types) with the extremes of every dimension at the first / middle / last vertex of each part in turn; every vertex of every structure stacked on the vertex before it (same X / Y) while holding the Z resp. M extreme; non-trivial = >=1 deviation or >=2 shapes",
             bounds: json!({"units": units.len(), "f_xy": f_xy().len(), "lows": lows().len(), "highs": highs().len(), "pair_scope_max_points": tier.pick(6, 9)}),
             exhaustive: true,
             assumptions: vec![
